@@ -35,6 +35,7 @@ type callRec struct {
 	Name    string   `json:"name"` // the path the archive decoder handed to the filesystem writer
 	Err     string   `json:"err,omitempty"`
 	Cross   string   `json:"cross,omitempty"` // first symlink on the way from dest to the entry ("." = dest itself), before the call
+	Over    string   `json:"over,omitempty"`  // file/symlink/device entry: its own path was a symlink (to this target) before the call
 	Changed []change `json:"changed,omitempty"`
 }
 
@@ -99,6 +100,9 @@ func crossOf(kind, name string) string {
 
 func (r *recFS) do(kind, name string, f func() error) error {
 	rec := callRec{I: r.n, Kind: kind, Name: name, Cross: crossOf(kind, name)}
+	if kind != "dir" && rec.Cross == "" && name != "." && name != ".." && !strings.HasPrefix(name, "../") {
+		rec.Over, _ = os.Readlink(destAbs + "/" + name) // readlink never follows the final component
+	}
 	r.n++
 	err := f()
 	if err != nil {
